@@ -21,14 +21,25 @@ Canon(r) == [locus |-> r.locus, definition |-> r.definition, accession |-> r.acc
              others |-> PairSet(r.others),
              feats |-> [i \in 1..Len(r.feats) |-> [key |-> r.feats[i].key, loc |-> r.feats[i].loc, quals |-> PairSet(r.feats[i].quals)]],
              origin |-> r.origin]
+One(lines, k) == Len(TopIdx(lines, k)) = 1
+Shaped(lines) == /\ One(lines, "LOCUS") /\ One(lines, "FEATURES") /\ One(lines, "ORIGIN") /\ One(lines, "//")
+                 /\ Len(WordsOf(lines[TopIdx(lines, "LOCUS")[1]])) >= 8
+                 /\ TopIdx(lines, "LOCUS")[1] < TopIdx(lines, "FEATURES")[1]
+                 /\ TopIdx(lines, "FEATURES")[1] < TopIdx(lines, "ORIGIN")[1]
+                 /\ TopIdx(lines, "ORIGIN")[1] < TopIdx(lines, "//")[1]
+                 /\ \A i \in 1..Len(TopIdx(lines, "REFERENCE")) : Len(WordsOf(lines[TopIdx(lines, "REFERENCE")[i]])) >= 2
 FirstDiff(a, b) == LET F == {f \in DOMAIN a : a[f] # b[f]} IN IF F = {} THEN "" ELSE CHOOSE f \in F : TRUE
 Judge(e) ==
     IF e.panic # "" THEN "genbank.Build / Parse panicked: " \o e.panic
     ELSE IF ~e.deterministic THEN "two writes of the same record differ"
     ELSE LET x == Canon(e.x) IN
-    IF Len(e.lines) <= 700 /\ Canon(Read(e.lines)) # x
+    (* poly's own parser first: a text it cannot read back is rejected before the specification's reader (which is *)
+    (* written for GenBank-shaped text) looks at it                                                                *)
+    IF Canon(e.reparsed) # x THEN "genbank.Parse(genbank.Build(x)) differs from x (first differing field: " \o FirstDiff(Canon(e.reparsed), x) \o ")"
+    ELSE IF Len(e.lines) <= 700 /\ ~Shaped(e.lines)
+       THEN "genbank.Build's text lacks the LOCUS / FEATURES / ORIGIN / terminator structure of a GenBank record"
+    ELSE IF Len(e.lines) <= 700 /\ Canon(Read(e.lines)) # x
        THEN "an independent GenBank reader does not recover the record from genbank.Build's text (first differing field: " \o FirstDiff(Canon(Read(e.lines)), x) \o ")"
-    ELSE IF Canon(e.reparsed) # x THEN "genbank.Parse(genbank.Build(x)) differs from x (first differing field: " \o FirstDiff(Canon(e.reparsed), x) \o ")"
     ELSE IF ~e.locsok THEN "a feature's location structure changed in the round trip"
     ELSE "ok"
 Init == l = 1
